@@ -28,15 +28,24 @@ def main():
             out.append(f"| {prop} | {r['name']} | {r['what']} | {r['status']} | {r.get('tier', 'quick')} | {r['wall']} | "
                        f"{r.get('minimised_steps') or '-'} | {(r.get('oracle') or '').replace('|', '/')[:110]} |")
     out += ["", "`quiet-as-required` marks an equivalent mutant: the property still holds and the check must not alarm.", ""]
+    last = {}
+    lp = os.path.join(HERE, "seeded_last.json")
+    if os.path.exists(lp):
+        sl = json.load(open(lp))
+        last = {r["name"]: r for r in sl["results"]}
+        out += [f"Last regression of all kept changes against the quick tier (`tools/reseed_all.py`, {sl['when']}): "
+                f"{sl['caught']}/{sl['total']} caught; the column *failing runs* says how many runs of the batch hit it.", ""]
     out += ["## 2. Independent seeded changes", "",
-            "| id | property | change | needs | result | strengthening it caused |", "|---|---|---|---|---|---|"]
+            "| id | property | change | needs | result | failing runs (last regression) | strengthening it caused |", "|---|---|---|---|---|---|---|"]
     for d in sorted(glob.glob(os.path.join(HERE, "seeded", "*"))):
         mp = os.path.join(d, "meta.json")
         if not os.path.exists(mp):
             continue
         m = json.load(open(mp))
         out.append(f"| {os.path.basename(d)} | {m.get('breaks_property', m.get('property'))} | {str(m.get('summary', ''))[:220]} | "
-                   f"{str(m.get('needs', ''))[:200]} | {m.get('check_result', '')} | {m.get('strengthening', '-')} |")
+                   f"{str(m.get('needs', ''))[:200]} | {m.get('check_result', '')} | "
+                   f"{(str(last[os.path.basename(d)].get('failing_runs')) + '/' + str(last[os.path.basename(d)].get('runs'))) if os.path.basename(d) in last else '-'} | "
+                   f"{m.get('strengthening', '-')} |")
     open(os.path.join(HERE, "SENSITIVITY.md"), "w").write("\n".join(out) + "\n")
     print("wrote SENSITIVITY.md:", caught, "/", total, "mutants;", len(glob.glob(os.path.join(HERE, 'seeded', '*'))), "seeded")
 
